@@ -1,5 +1,5 @@
 (* Recover/ProofsStepB.v — the invariant is preserved by the snapshot goroutines and the purge loops. *)
-From Coq Require Import NArith List Bool Lia Arith.
+From Coq Require Import NArith List Bool Lia Arith FinFun.
 From Coq Require Import ZifyN ZifyNat ZifyBool.
 From ZV Require Import Recover.Consts Recover.Path Recover.ProofsWal Recover.ProofsLists Recover.ProofsInv Recover.ProofsStepA.
 Import ListNotations.
@@ -306,7 +306,39 @@ Proof.
   - apply Nat.leb_gt in Q. lia.
 Qed.
 
-Lemma step_pg_before : forall c s s' k, Inv c s -> single_window s -> step c s (EvPgBefore k) = Ok s' -> Inv c s'.
+Lemma sn_lookup_in : forall i p l, sn_lookup i l = Some p -> In (i, p) l.
+Proof.
+  induction l as [|[j q] t IH]; simpl; intros H; [discriminate|].
+  destruct (i =? j) eqn:E; [injection H as <-; apply N.eqb_eq in E; subst; left; reflexivity | right; auto].
+Qed.
+
+(* distinct snap files that all belong to goroutines in the window: there are at least that many goroutines there *)
+Lemma count_window_files : forall (l : list N) sns0,
+  NoDup l -> (forall f, In f l -> sn_lookup f sns0 = Some SnFile) -> (length l <= win_count sns0)%nat.
+Proof.
+  intros l sns0 Hnd Hall. unfold win_count.
+  rewrite <- (map_length (fun f => (f, SnFile)) l).
+  apply NoDup_incl_length.
+  - apply FinFun.Injective_map_NoDup; [|exact Hnd]. intros x y E. injection E as ->. reflexivity.
+  - intros q Hq. apply in_map_iff in Hq. destruct Hq as [f [<- Hf]]. apply filter_In. split; [|reflexivity].
+    apply sn_lookup_in. apply Hall. exact Hf.
+Qed.
+
+Lemma removeN_length : forall m l, NoDup l -> In m l -> S (length (removeN m l)) = length l.
+Proof.
+  induction l as [|a t IH]; intros Hnd Hin; [destruct Hin|].
+  inversion Hnd as [|? ? Hna Hnt]; subst. unfold removeN in *. simpl.
+  destruct (m =? a) eqn:E.
+  - apply N.eqb_eq in E. subst a. simpl. f_equal.
+    assert (G : forall l0, ~ In m l0 -> filter (fun y => negb (m =? y)) l0 = l0).
+    { induction l0 as [|b u IHu]; simpl; intros Hn; auto. destruct (m =? b) eqn:Eb.
+      - apply N.eqb_eq in Eb. subst. exfalso. apply Hn. left. reflexivity.
+      - simpl. f_equal. apply IHu. intros Hx. apply Hn. right. exact Hx. }
+    rewrite G by exact Hna. reflexivity.
+  - simpl. f_equal. apply IH; auto. destruct Hin as [->|Hin]; [rewrite N.eqb_refl in E; discriminate | exact Hin].
+Qed.
+
+Lemma step_pg_before : forall c s s' k, Inv c s -> window_ok c s -> step c s (EvPgBefore k) = Ok s' -> Inv c s'.
 Proof.
   intros c s s' k HI SW H. start_step H hi HP HV; norm_guards.
   - (* wal *)
@@ -319,14 +351,17 @@ Proof.
     unfold running in *. proj. destruct (rc s) eqn:R; try discriminate.
     match goal with G : minl _ = Some ?m |- _ => rename m into mn; rename G into Gm end.
     match goal with G : Nat.ltb _ _ = true |- _ => apply Nat.ltb_lt in G; rename G into Glen end.
-    pose proof (eff_keep_snap_ge2 c) as K2.
     destruct (minl_spec _ _ Gm) as [Min Mle].
-    destruct (min_two_above _ _ (p_nodup _ _ HP) ltac:(lia) Gm) as [a [b [Ha [Hb [Hab [Hma Hmb]]]]]].
     assert (Hlt : mn < newest (segs s)).
     { destruct (N.lt_ge_cases mn (newest (segs s))) as [L|L]; [exact L|exfalso].
       destruct HV.
-      assert (Ha' : newest (segs s) < a) by lia. assert (Hb' : newest (segs s) < b) by lia.
-      apply Hab. apply SW; [apply v_files; assumption | apply v_files; assumption]. }
+      (* every other file is newer than the newest marker, hence belongs to a goroutine in the window *)
+      assert (Hcnt : (length (removeN mn (snapfiles s)) <= win_count (sns s))%nat).
+      { apply count_window_files.
+        - apply removeN_NoDup. exact (p_nodup _ _ HP).
+        - intros f Hf. apply removeN_In in Hf. destruct Hf as [Hf Hne]. apply v_files; [exact Hf|].
+          specialize (Mle f Hf). lia. }
+      pose proof (removeN_length mn (snapfiles s) (p_nodup _ _ HP) Min). unfold window_ok in SW. lia. }
     vinv_split HV. intros f Hf. injection Hf as <-. exact Hlt.
 Qed.
 
